@@ -241,9 +241,14 @@ func genMalformed(rng *rand.Rand, n int, seed int64) *CaseDesc {
 	if chance(rng, 0.3) && len(c.Provs) > 3 {
 		i := rng.Intn(len(c.Provs) - 2)
 		for k := i; k < i+2+rng.Intn(2) && k < len(c.Provs)-1; k++ {
-			c.Provs[k].Cluster = 1
+			if c.Provs[k].Cluster == 0 { // never the number of a cluster genCase made: same number must mean same nject.Cluster
+				c.Provs[k].Cluster = 3
+			} else {
+				break
+			}
 		}
 	}
+	normalizeClusters(c)
 	switch rng.Intn(8) {
 	case 0: // wrapper last
 		last := c.Provs[len(c.Provs)-1]
